@@ -5,6 +5,7 @@ import (
 	"encoding/json"
 	"fmt"
 	"os"
+	"regexp"
 	"path/filepath"
 	"strings"
 
@@ -83,6 +84,8 @@ func segs(p string) int {
 }
 
 // c20Pair runs one wrapper function and its documented core composition on the same input.
+var blanksBeforeLt = regexp.MustCompile("[ \\t\\n\\r]<")
+
 func c20Pair(c *Ctx, k c20Case, choices []int) (nontrivial bool) {
 	k.Pol = rt.OrderPolicy
 	c20RetainHook = func(b []byte) { c.Retain(k.Fn, b, func() interface{} { return k }) }
@@ -430,15 +433,25 @@ func c20Pair(c *Ctx, k c20Case, choices []int) (nontrivial bool) {
 				var e3 error
 				switch {
 				case strings.HasSuffix(k.Fn, "Indent"):
-					// the wrapper documents plain encoding/json marshaling of the map (safe encoding)
-					j, e3 = m.JsonIndent("", "  ", k.Fn == "x2jw.ToJsonIndent")
-				case k.Fn == "x2jw.ToJson":
-					j, e3 = m.Json(true)
+					// the wrappers take no encoding flag: the composition is decode + JsonIndent / Json with none,
+					// for the reader forms exactly as for the string forms
+					j, e3 = m.JsonIndent("", "  ")
 				default:
 					j, e3 = m.Json()
 				}
 				core = fmt.Sprintf("%s|err=%v", j, e3 != nil)
 			}
+		case "x2jw.CastNanInf":
+			// the wrapper's option setter has the effect of the core setter it is named after and documented like
+			x2jw.CastNanInf(k.Flag)
+			m1, e1 := x2jw.DocToMap(k.Xml, true)
+			x2jw.CastNanInf(false)
+			mxj.CastNanInf(false)
+			w = rOK(m1, e1)
+			mxj.CastNanInf(k.Flag)
+			m2, e2 := mxj.NewMapXml([]byte(k.Xml), true)
+			mxj.CastNanInf(false)
+			core = rOK(map[string]interface{}(m2), e2)
 		case "x2jw.ToMap":
 			w = rOK(x2jw.ToMap(oneRead{strings.NewReader(k.Xml)}, k.Flag))
 			m, e := mxj.NewMapXmlReader(oneRead{strings.NewReader(k.Xml)}, k.Flag)
@@ -526,16 +539,23 @@ func c20Pair(c *Ctx, k c20Case, choices []int) (nontrivial bool) {
 			}
 			defer os.Remove(fn)
 			var got, want []string
-			var e, e2 error
+			var e error
 			if k.Fn == "x2jw.XmlMsgsFromFile" {
 				e = x2jw.XmlMsgsFromFile(fn, func(m map[string]interface{}) bool { got = append(got, dump(m)); return true }, func(error) bool { return false }, k.Flag)
-				e2 = x2jw.XmlMsgsFromReader(oneRead{strings.NewReader(k.Xml)}, func(m map[string]interface{}) bool { want = append(want, dump(m)); return true }, func(error) bool { return false }, k.Flag)
 			} else {
 				e = x2jw.XmlMsgsFromFileAsJson(fn, func(js string) bool { got = append(got, js); return true }, func(error) bool { return false }, k.Flag)
-				e2 = x2jw.XmlMsgsFromReaderAsJson(oneRead{strings.NewReader(k.Xml)}, func(js string) bool { want = append(want, js); return true }, func(error) bool { return false }, k.Flag)
 			}
 			w = fmt.Sprintf("%q|err=%v", got, e != nil)
-			core = fmt.Sprintf("%q|err=%v", want, e2 != nil)
+			for _, d := range k.Pairs {
+				m, _ := mxj.NewMapXml([]byte(d), k.Flag)
+				if k.Fn == "x2jw.XmlMsgsFromFile" {
+					want = append(want, dump(map[string]interface{}(m)))
+				} else {
+					j, _ := m.Json()
+					want = append(want, string(j))
+				}
+			}
+			core = fmt.Sprintf("%q|err=%v", want, false)
 		case "x2jw.XmlMsgsFromReader", "x2jw.XmlMsgsFromReaderAsJson":
 			// k.Pairs holds the documents of the stream k.Xml
 			var got []string
@@ -558,7 +578,7 @@ func c20Pair(c *Ctx, k c20Case, choices []int) (nontrivial bool) {
 				if k.Fn == "x2jw.XmlMsgsFromReader" {
 					want = append(want, dump(map[string]interface{}(m)))
 				} else {
-					j, _ := m.Json(true)
+					j, _ := m.Json()
 					want = append(want, string(j))
 				}
 			}
@@ -591,7 +611,16 @@ func c20Pair(c *Ctx, k c20Case, choices []int) (nontrivial bool) {
 	}
 	c.Outcome(k.Fn + "|" + w)
 	if w != core {
-		c.Violate(k.Fn, "agrees-with-core", "wrapper", k, choices, fmt.Sprintf("%s xml=%q json=%q key=%q path=%q sub=%v pairs=%v flag=%v\n wrapper: %s\n core   : %s", k.Fn, k.Xml, k.Json, k.Key, k.Path, k.Sub, k.Pairs, k.Flag, short(w, 700), short(core, 700)))
+		shape := "wrapper"
+		if strings.HasPrefix(k.Fn, "x2jw.XmlMsgsFromFile") {
+			for _, d := range k.Pairs {
+				if blanksBeforeLt.MatchString(d) {
+					// white space in front of a '<' inside a document (a literal '<' in a CDATA section, a tag after text)
+					shape = "file-form,blanks-before-lt-inside-a-document"
+				}
+			}
+		}
+		c.Violate(k.Fn, "agrees-with-core", shape, k, choices, fmt.Sprintf("%s xml=%q json=%q key=%q path=%q sub=%v pairs=%v flag=%v\n wrapper: %s\n core   : %s", k.Fn, k.Xml, k.Json, k.Key, k.Path, k.Sub, k.Pairs, k.Flag, short(w, 700), short(core, 700)))
 	}
 	return true
 }
@@ -727,7 +756,7 @@ func c20Walkers(c *Ctx, m map[string]interface{}, fn, key, path string, flag boo
 func c20Run(c *Ctx) {
 	mustBeDefault(c)
 	c.S.Rule = "part 1 (wrappers = documented composition of core calls): every exported function of j2x (17), x2j (17) and the conversion/reader/buffer/file functions of x2j-wrapper (22) x documents (XML: all element trees with <= 3 elements with <= 1 decoration, plus malformed inputs; JSON: Map templates with <= 4 nodes incl. special characters, plus malformed inputs) x keys {a,b,k,z,*} / paths of <= 2 steps / sub-key sets / key pairs / flags (safe encoding, recast) - wrapper result and error-ness must equal the composition executed on the same build in the same option state. part 2 (x2j-wrapper's own walkers): every Map template with <= N nodes over keys {a,k,-x} x keys / wildcard paths of <= 3 steps x getAttrs: PathsForKey = Map.PathsForKey as sets, PathForKeyShortest a member of equal length, ValuesFromKeyPath = reference walk with attribute entries excluded at wildcard steps unless requested (= Map.ValuesForPath when requested), ValuesAtKeyPath = the parent-level values iff one has the key. plus the sibling family {top:[M1,M2]} (Mi every map template with <= 4 nodes over {a,k}). Byte results of wrappers and compositions are retained and re-checked after later calls. Ascending/descending map order; E-choice bound 1 on the walkers for small Maps. non-trivial = non-empty result."
-	c.S.Assumptions = []string{"x2j-wrapper ToJson/ToJsonIndent marshal with encoding/json directly (safe encoding), as their source documents", "MapValue/DocValue/ValuesForKey of x2j-wrapper have no core counterpart with equal semantics and are covered by C15 (totality) only"}
+	c.S.Assumptions = []string{"MapValue/DocValue/ValuesForKey of x2j-wrapper have no core counterpart with equal semantics and are covered by C15 (totality) only"}
 	// ---- documents
 	var xmls []string
 	for n := 1; n <= 3; n++ {
@@ -806,7 +835,11 @@ func c20Run(c *Ctx) {
 		}
 	}
 	// streams of 2..3 documents through the wrapper's stream functions (plain io.Reader)
-	sd := []string{`<a/>`, `<a>x</a>`, `<a b="1"><c/>t</a>`, `<r><k>1.5</k><k>true</k></r>`}
+	sd := []string{`<a/>`, `<a>x</a>`, `<a b="1"><c/>t</a>`, `<r><k>1.5</k><k>true</k></r>`, `<m><e><![CDATA[a <b  <c]]></e><f>1 &lt; 2 &amp; 3</f></m>`}
+	for _, x := range []string{`<r><a>Inf</a><b>-Inf</b><c>NaN</c><d>1.5</d></r>`, `<r a="inf">nan</r>`, `<r>x</r>`} {
+		run(c20Case{Fn: "x2jw.CastNanInf", Xml: x, Flag: true})
+		run(c20Case{Fn: "x2jw.CastNanInf", Xml: x, Flag: false})
+	}
 	for _, d1 := range sd {
 		for _, d2 := range sd {
 			for _, sep := range []string{"", "\n "} {
